@@ -604,6 +604,7 @@ def run(ctx, rep):
     rep.rule("R06.3", "the decision of _check_attr equals the table dictated by the statement on all feasible valuations")
     rep.rule("R06.4", "objects' own hooks win, and only type-level hooks")
     rep.rule("R06.5", "services deny set/del on themselves")
+    rep.rule("R06.8", "handlers that reach a named special method of the target go through the policy, not around it (= R02.1/R02.2 policy clauses)")
     rep.rule("R06.6", "restricted views permit exactly the listed names")
     rep.rule("R06.7", "isolation: configuration is per connection (fresh copy, no writer of the defaults or of shared mutable values)")
     rep.assume("user-defined _rpyc_* hooks and descriptor side effects of hasattr are out of scope",
@@ -797,3 +798,4 @@ def run(ctx, rep):
             rep.ob("R06.7", "%s: each client gets a fresh configuration dictionary" % q.split(".")[-1], fresh,
                    "config = dict(self.protocol_config, ...)" if fresh else
                    "the server's protocol_config object itself is handed to every connection", ctx.loc(c))
+    K.share(ctx, rep, "c02", lambda o: o.rule in ("R02.1", "R02.2") and "through the policy" in o.key, "R06.8", floor=2)
